@@ -101,6 +101,7 @@ func main() {
 			r.Inconclusive("counter %s is zero: the forged recipient-less file was not tried with that identity kind", c)
 		}
 	}
+	cliAmbient(r)
 	if n := r.Counter("premise_failures_unexplained"); n > 0 {
 		r.Inconclusive("%d cases whose premise could not be established or explained", n)
 	}
